@@ -213,7 +213,7 @@ def _base_game(kind, shape, k0=0):
 
 def _junk_scalars():
     return [("N",), ("I", 5), ("I", 0), ("F", 1.5), ("S", True), ("S", False), ("O", True, 0), ("O", False, 0),
-            ("B", True), ("B", False)]
+            ("B", True), ("B", False), ("O", True, 6), ("O", True, 7), ("O", True, 8), ("O", True, 11)]
 
 
 def malformed_cases(kind, shape, ops=("rate", "pwin", "pdraw", "prank"), st=None):
@@ -273,10 +273,12 @@ def malformed_cases(kind, shape, ops=("rate", "pwin", "pdraw", "prank"), st=None
         # non-numeric element at each position
         for p in range(n):
             for bad in [N, ("S", True), ("S", False), ("L", []), ("L", [("I", 1)]), ("T", []), ("O", True, 3),
-                        g()[1][0][1][0]]:
+                        ("O", True, 6), ("O", True, 7), ("O", True, 8), ("O", True, 10), ("O", True, 11), g()[1][0][1][0]]:
                 v = list(good)
                 v[p] = bad
                 yield call(("L", v)), "reject"
+        # every element looks like a number to float() and is not one
+        yield call(("L", [("O", True, 6 + (i % 2)) for i in range(n)])), "reject"
         # wrong length AND non-numeric (length is checked first: still a rejection)
         yield call(("L", [("S", True)])), "reject"
     # both selectors
